@@ -17,12 +17,15 @@
 // the opt / vis / stat structs, and the byte stream written by mj_saveModel.
 // Output, one line per case: `ok nmesh=.. ntex=.. nq=.. nv=.. nu=.. pooltasks=..`, or `DIFF <check>:<field> ...`,
 // or `error <message>` when the spec does not compile at all.
+#include <csignal>
 #include <cstdint>
 #include <cstdio>
 #include <cstdlib>
 #include <cstring>
 #include <string>
 #include <vector>
+
+#include <unistd.h>
 
 #include <mujoco/mujoco.h>
 #include <mujoco/mjxmacro.h>
@@ -214,7 +217,15 @@ void run_case(int ntex, unsigned seed, int nstep) {
 
 }  // namespace
 
+static void on_alarm(int) {
+  // a compile that hangs (e.g. a lost wake-up in the asset thread pool) ends the process with a diagnosable line
+  const char msg[] = "TIMEOUT\n";
+  ssize_t k = write(1, msg, sizeof msg - 1); (void)k;
+  _exit(3);
+}
+
 int main() {
+  signal(SIGALRM, on_alarm);
   char line[256];
   while (std::fgets(line, sizeof line, stdin)) {
     int ntex, nstep; unsigned seed;
@@ -225,7 +236,9 @@ int main() {
       if (!blank) { std::printf("bad-op\n"); std::fflush(stdout); }
       continue;
     }
+    alarm(120);
     run_case(ntex, seed, nstep);
+    alarm(0);
     std::fflush(stdout);
   }
   return 0;
